@@ -125,7 +125,31 @@ func (f *Frame) call(in ssa.Instruction, cc *ssa.CallCommon, v ssa.Value) {
 			}
 		}
 		e.fullHavoc(f.st, "call of function value in "+f.fn.Name())
-		f.setResults(v, f.symbolicResults(cc.Signature(), f.st, f.reach, "dyn"))
+		rs := f.symbolicResults(cc.Signature(), f.st, f.reach, "dyn")
+		if named, ok := cc.Value.Type().(*types.Named); ok {
+			for _, de := range e.unit.DynEnsures {
+				if de.Raw != named.Obj().Name() {
+					continue
+				}
+				vars := map[string]CVal{}
+				for k, pv := range f.params {
+					vars[k] = pv
+				}
+				for i, a := range cc.Args {
+					vars[fmt.Sprintf("arg%d", i)] = CVal{S: args[i], T: a.Type()}
+				}
+				for i, rt := range sigResults(cc.Signature()) {
+					vars[fmt.Sprintf("result%d", i)] = CVal{S: rs[i], T: rt}
+				}
+				errs := []string{}
+				env := &CEnv{e: e, vars: vars, st: f.st, old: f.entrySt, pkg: f.fn.Pkg.Pkg, frame: f, at: in.Block(), lets: e.unit.Lets, errs: &errs}
+				fact := env.evalBool(de.Expr)
+				f.reportEnvErrs(env, de)
+				e.assume(f.reach, fact)
+				e.note("assumed of every %s value: %s", de.Raw, de.Text)
+			}
+		}
+		f.setResults(v, rs)
 		return
 	}
 	if mc, ok := cc.Value.(*ssa.MakeClosure); ok {
@@ -417,6 +441,10 @@ func (f *Frame) callStatic(callee *ssa.Function, args []string, argVals []ssa.Va
 			if fact := e.typeFact(r, rt, st); fact != "true" {
 				e.assume(reach, fact)
 			}
+			if isIface(rt) {
+				// an error returned by the standard library is nil or a real (non-typed-nil) value
+				e.assume(reach, fmt.Sprintf("(or (= %s nilIface) (not (= (i_ref %s) 0)))", r, r))
+			}
 			rs = append(rs, r)
 		}
 		e.note("assumed: %s is a pure function of its arguments", fnKey(callee))
@@ -697,12 +725,18 @@ func (e *Enc) typeFactOr(v string, t types.Type, st *State) string {
 	return e.typeFact(v, t, st)
 }
 
-var purePkgs = map[string]bool{"strings": true, "strconv": true, "math": true, "unicode": true, "unicode/utf8": true, "math/bits": true}
+var purePkgs = map[string]bool{"strings": true, "strconv": true, "math": true, "unicode": true, "unicode/utf8": true, "math/bits": true, "path/filepath": true}
+
+// pureOnly: packages of which only the listed functions are pure (the others read the process state: cwd, environment)
+var pureOnly = map[string]map[string]bool{"path/filepath": {"Base": true, "Clean": true, "Dir": true, "Ext": true, "IsAbs": true, "Match": true, "Rel": true, "ToSlash": true, "FromSlash": true, "VolumeName": true}}
 
 // pureExternal: a package-level function of a pure standard-library package whose parameters and results are
 // strings, booleans, numbers (or a trailing error result).
 func pureExternal(fn *ssa.Function) bool {
 	if fn.Pkg == nil || !purePkgs[fn.Pkg.Pkg.Path()] || fn.Signature.Recv() != nil || fn.Signature.Variadic() {
+		return false
+	}
+	if only, ok := pureOnly[fn.Pkg.Pkg.Path()]; ok && !only[fn.Name()] {
 		return false
 	}
 	basic := func(t types.Type) bool {
